@@ -54,6 +54,10 @@
 
 
 
+#include <xalanc/XalanDOM/XalanNamedNodeMap.hpp>
+
+
+
 #include "Constants.hpp"
 #include "ElemApplyTemplates.hpp"
 #include "ElemAttributeSet.hpp"
@@ -921,6 +925,34 @@ StylesheetRoot::internalShouldStripSourceNode(const XalanText&  textNode) const
 
     if (parent->getNodeType() == XalanNode::ELEMENT_NODE)
     {
+        // A whitespace text node is preserved if an ancestor element has
+        // an xml:space attribute with the value preserve, and no closer
+        // ancestor has one with the value default (XSLT 1.0, section 3.4).
+        for (const XalanNode* theAncestor = parent;
+                theAncestor != 0 && theAncestor->getNodeType() == XalanNode::ELEMENT_NODE;
+                    theAncestor = theAncestor->getParentNode())
+        {
+            const XalanNamedNodeMap* const  theAttributes =
+                theAncestor->getAttributes();
+
+            const XalanNode* const  theXMLSpace =
+                theAttributes == 0 ? 0 : theAttributes->getNamedItem(Constants::ATTRNAME_XMLSPACE);
+
+            if (theXMLSpace != 0)
+            {
+                const XalanDOMString&   theValue = theXMLSpace->getNodeValue();
+
+                if (equals(theValue, Constants::ATTRVAL_PRESERVE) == true)
+                {
+                    return false;
+                }
+                else if (equals(theValue, Constants::ATTRVAL_DEFAULT) == true)
+                {
+                    break;
+                }
+            }
+        }
+
         const XalanElement* const   theElement =
                 static_cast<const XalanElement*>(parent);
 
